@@ -289,10 +289,12 @@ class DiagService(DiagComm):
                 pass
 
         if len(result_list) < 1:
-            odxraise(f"The service {self.short_name} cannot decode the message {raw_message.hex()}",
-                     DecodeError)
-            return Message(
-                coded_message=raw_message, service=self, coding_object=None, param_dict={})
+            # this is not a violation of the specification which can
+            # be ignored in non-strict mode: the message simply does
+            # not belong to the service (callers like
+            # `DiagLayer.decode()` rely on being told so)
+            raise DecodeError(
+                f"The service {self.short_name} cannot decode the message {raw_message.hex()}")
         elif len(result_list) > 1:
             odxraise(
                 f"The service {self.short_name} cannot uniquely decode the message {raw_message.hex()}",
